@@ -231,7 +231,13 @@ func (arch *Arch) Assembler_process_line(line []byte) (string, error) {
 			for i, op := range arch.Op {
 				if op.Op_get_name() == words[0] {
 					if result, err := op.Assembler(arch, words[1:]); err == nil {
-						return zeros_prefix(opbits, get_binary(i)) + result, nil
+						word := zeros_prefix(opbits, get_binary(i)) + result
+						// Every instruction has to be exactly one ROM word: a longer (or shorter) one
+						// means an operand did not fit its field
+						if len(word) != arch.Max_word() {
+							return "", Prerror{"Operand out of range, error processing " + op.Op_get_name()}
+						}
+						return word, nil
 					} else {
 						return "", Prerror{err.Error() + ", error processing " + op.Op_get_name()}
 					}
